@@ -195,6 +195,11 @@ class WorkStealingScheduling:
 
     def check_schedule(self) -> None:
         """Reschedule tests/perform load balancing."""
+        if self.collection is None:
+            # Nothing to balance before the collection is agreed; in particular
+            # do not shut down nodes which are merely waiting for it.
+            return
+
         nodes_up = [
             NodePending(node, pending)
             for node, pending in self.node2pending.items()
